@@ -4,6 +4,7 @@ import Fuota.Drv.D2
 import Fuota.Drv.D4
 import Fuota.Drv.D7
 import Fuota.Drv.D6c
+import Fuota.Drv.D8
 import Fuota.Drv.D5
 /-! Line-protocol driver: one query per input line, one canonical answer per output line.
     Imports the model files only (no Mathlib), so it links as a native executable.
@@ -14,6 +15,9 @@ structure St where
   d1 : D1.S := {}
   d5 : D5.S := {}
   d4 : D4.S := {}
+  d8 : D8.S := {}
+  /-- `--naive`: the session lines of D5 are answered by the naive back-end model (`D8.stepNaive`) -/
+  naive : Bool := false
 
 def step (st : St) (line : String) : St × String :=
   let toks := line.trimAscii.toString.splitOn " "
@@ -36,6 +40,14 @@ def step (st : St) (line : String) : St × String :=
   match D4.step st.d4 toks with
   | some (s, o) => ({ st with d4 := s }, o)
   | none =>
+  match D8.stepOrig st.d8 toks with
+  | some (s, o) => ({ st with d8 := s }, o)
+  | none =>
+  if st.naive then
+    match D8.stepNaive st.d8 toks with
+    | some (s, o) => ({ st with d8 := s }, o)
+    | none => (st, "bad-op")
+  else
   match D5.step st.d5 toks with
   | some (s, o) => ({ st with d5 := s }, o)
   | none => (st, "bad-op")
@@ -53,4 +65,5 @@ def main (args : List String) : IO Unit := do
   let stdin ← IO.getStdin
   let stdout ← IO.getStdout
   let pinned := args.contains "--recon-bit-first"
-  Drv.loop stdin stdout { d1 := { variant := { bitBeforeStore := pinned } }, d5 := { ffr := args.contains "--ffr" } }
+  Drv.loop stdin stdout { d1 := { variant := { bitBeforeStore := pinned } }, d5 := { ffr := args.contains "--ffr" },
+                           d8 := { ffr := args.contains "--ffr" }, naive := args.contains "--naive" }
